@@ -17,7 +17,7 @@ def sh(*a, **kw): return subprocess.run(a, capture_output=True, text=True, **kw)
 only = sys.argv[3:]
 for h, info in by_commit.items():
     if only and h not in only: continue
-    sh("git", "-C", wt, "checkout", "-q", "--", "."); sh("git", "-C", wt, "clean", "-fdq")
+    sh("git", "-C", wt, "reset", "-q", "--hard"); sh("git", "-C", wt, "clean", "-fdq")
     patch = sh("git", "-C", "/repo", "show", "--format=", h).stdout
     r = subprocess.run(["git", "-C", wt, "apply", "-R", "--3way"], input=patch, capture_output=True, text=True)
     if r.returncode != 0 or "conflict" in (r.stderr or "").lower():
